@@ -83,7 +83,7 @@ func (w *World) translateGlobals() (err error) {
 		w.specSMT = append(w.specSMT, "("+kw+" "+sf.Name+" ("+strings.Join(pn, " ")+") "+rs+" "+b.S+")")
 	}
 	for _, ax := range w.axioms {
-		env := &CEnv{f: g, st: st, pkgName: "", bound: map[string]Term{}, names: map[string]Term{}}
+		env := &CEnv{f: g, st: st, pkgName: ax.Pkg, bound: map[string]Term{}, names: map[string]Term{}}
 		g.curSpec = "axiom " + ax.Label
 		w.axiomSMT = append(w.axiomSMT, env.boolT(ax.Expr))
 	}
@@ -316,7 +316,7 @@ func (w *World) verifyFunc(key string) (f *FuncCtx, err error) {
 				env := f.conEnv(c, f.initSt, nil, f.names0)
 				goal = env.boolT(c.PanicsOnly)
 			}
-			f.oblige(p, goal, "nopanic@"+p.site, "nopanic", "no panic escapes (edge "+p.site+")", nil, "")
+			f.oblige(p, goal, "nopanic@"+p.site, "nopanic", "no panic escapes (edge "+p.site+")", c.NoPanicProps, "")
 		}
 	}
 	for _, p := range panics {
@@ -337,6 +337,9 @@ func (w *World) verifyFunc(key string) (f *FuncCtx, err error) {
 		}
 		names := f.retNames(r)
 		for _, en := range c.Ensures {
+			if en.Assumed {
+				continue
+			}
 			env := f.conEnv(c, r, f.initSt, names)
 			g := env.boolT(en.Expr)
 			id := fmt.Sprintf("ensures%d@%s", en.N, r.site)
